@@ -349,8 +349,22 @@ def is_num(v):
     return isinstance(v, (bool, int, float))
 
 
+class Ambiguous(Exception):
+    """The property does not say what the answer is (see o_equal): the oracle abstains and only the
+    assertion/negation pairing is checked."""
+
+
+def _approx_same_keys(a, b, exact, delta):
+    return (len(a) == len(b) and all(any(o_equal(x, y, exact, delta) for y in b) for x in a)
+            and all(any(o_equal(x, y, exact, delta) for x in a) for y in b))
+
+
 def o_equal(a, b, exact, delta):
-    """Equality with the documented float tolerance and string normalisation, symmetric by construction."""
+    """Equality with the documented float tolerance and string normalisation, symmetric by construction.
+    Raises Ambiguous for two dicts whose key sets are equal only approximately ({'A': 1} vs {'a': 1},
+    {1.0004: 'x'} vs {1: 'x'}): neither the documentation nor the property says whether tolerance and
+    normalisation extend to dict *keys*, so either answer is accepted there - as long as assert_equal
+    and assert_not_equal do not both pass or both fail (checked separately)."""
     if is_num(a) and is_num(b):
         if isinstance(a, float) or isinstance(b, float):
             return abs(Fraction(a) - Fraction(b)) < Fraction(delta)
@@ -360,22 +374,21 @@ def o_equal(a, b, exact, delta):
     if a == b:
         return True
     if isinstance(a, list) and isinstance(b, list) or isinstance(a, tuple) and isinstance(b, tuple):
-        return len(a) == len(b) and all(o_equal(x, y, exact, delta) for x, y in zip(a, b))
+        if len(a) != len(b):
+            return False
+        # no short circuit: an ambiguous pair anywhere makes the whole comparison ambiguous
+        return all([o_equal(x, y, exact, delta) for x, y in zip(a, b)])
     if isinstance(a, set) and isinstance(b, set):
         # approximate matching lifted to sets symmetrically: each element has a partner in the other set
         return (len(a) == len(b) and all(any(o_equal(x, y, exact, delta) for y in b) for x in a)
                 and all(any(o_equal(x, y, exact, delta) for x in a) for y in b))
     if isinstance(a, dict) and isinstance(b, dict):
-        # keys are keys: compared exactly; values with tolerance / normalisation
-        return set(a.keys()) == set(b.keys()) and all(o_equal(a[k], b[k], exact, delta) for k in a)
+        if set(a.keys()) != set(b.keys()):
+            if _approx_same_keys(list(a.keys()), list(b.keys()), exact, delta):
+                raise Ambiguous()
+            return False
+        return all([o_equal(a[k], b[k], exact, delta) for k in a])
     return False
-
-
-def _holds(f):
-    try:
-        return bool(f())
-    except Exception:
-        return False
 
 
 def widen(cls):
@@ -386,7 +399,8 @@ def widen(cls):
 
 
 def oracle(name, a, b=None, exact=False, delta=None, printed=None, spelling=None):
-    """Does the asserted relation hold for the RAW operands?  (=> the assertion must be silent)"""
+    """Does the asserted relation hold for the RAW operands?  (=> the assertion must be silent)
+    True / False, or None where the property leaves the answer open (o_equal's Ambiguous)."""
     a, b = raw(a), raw(b)
     if isinstance(a, BaseException) or isinstance(b, BaseException):
         return False
@@ -434,7 +448,12 @@ def oracle(name, a, b=None, exact=False, delta=None, printed=None, spelling=None
         "assert_output_regex": lambda: re.search(str(b), chomp(printed)) is not None,
         "assert_not_output_regex": lambda: re.search(str(b), chomp(printed)) is None,
     }
-    return _holds(table[name])
+    try:
+        return bool(table[name]())
+    except Ambiguous:
+        return None             # the oracle abstains (only the pairing with the negation is checked)
+    except Exception:
+        return False
 
 
 def chomp(text):
